@@ -35,7 +35,7 @@ def analyzer_plan(name, cfg):
     from speckit import SpectrumAnalyzer
     an = SpectrumAnalyzer(np.zeros(int(cfg["N"])), float(cfg["fs"]), olap=float(cfg["olap"]),
                           bmin=float(cfg["bmin"]), Lmin=int(cfg["Lmin"]), Jdes=int(cfg["Jdes"]),
-                          Kdes=int(cfg["Kdes"]), scheduler=name)
+                          Kdes=int(cfg["Kdes"]), scheduler=name, verbose=bool(cfg.get("verbose", False)))
     return an.plan()
 
 
@@ -53,6 +53,7 @@ def config(draw, tier):
         if not cfg["bmin"] < cap / 2.0:
             cfg["bmin"] = 1.0
     cfg["sched"] = draw(st.sampled_from(NAMES))
+    cfg["verbose"] = draw(st.booleans())      # analyzer option: must not matter for the plan
     return cfg
 
 
@@ -84,7 +85,7 @@ def grid_configs(tier):
                                 if name == "lpsd" and (bmin != 1.0 or Lmin != 1):
                                     continue  # lpsd ignores them: one representative
                                 yield {"N": N, "fs": 1.0, "olap": olap, "bmin": bmin, "Lmin": Lmin,
-                                       "Jdes": J, "Kdes": K, "sched": name}
+                                       "Jdes": J, "Kdes": K, "sched": name, "verbose": (N + J + K) % 2 == 1}
 
 
 def classify(name, cfg, plan):
